@@ -95,6 +95,15 @@ theorem group_sema_once_sites :
     has "lock.h" "_dispatch_once_mark_done" "xchg" "release" "&dgo->dgo_once" = true := by
   set_option maxRecDepth 100000 in decide
 
+/-- "... or after dispatch_once returns": a caller that did not run the initialiser itself leaves through `_dispatch_once_wait`, whose
+    DONE exit is followed by an acquire fence (F48: that exit was a relaxed load with no fence; a caller that found the gate taken
+    and then found it DONE had no edge from the initialiser's release). The other way out, the fast path, is inline in the public
+    header on this architecture (a plain load, sufficient under x86-64's ordering; other architectures compile the acquire load at
+    the top of `dispatch_once_f` instead). -/
+theorem once_return_sites :
+    has "lock.c" "_dispatch_once_wait" "fence" "acquire" "fence" = true := by
+  set_option maxRecDepth 100000 in decide
+
 /-- the hand-off locations are only ever modified by read-modify-writes (no atomic store in the library names them), which is
     what keeps every release sequence on them intact (`rmw_only_sync`) -/
 theorem handoff_locations_rmw_only :
